@@ -1001,6 +1001,14 @@ pub fn run_prop(p: &Prop, cfg: &RunCfg, only_sub: Option<&str>) -> i32 {
 }
 
 /// coverage-guided stage: 16 libFuzzer jobs of the given target, each with its own seed and corpus copy
+/// wall-clock limit of one libFuzzer job (16 run in parallel); a job stopped here gives no verdict
+pub const FUZZ_JOB_DEADLINE_S: u64 = 900;
+
+/// (JPV_FUZZ_DEADLINE_S overrides it: used to test the stop path)
+fn fuzz_job_deadline_s() -> u64 {
+    std::env::var("JPV_FUZZ_DEADLINE_S").ok().and_then(|x| x.parse::<u64>().ok()).unwrap_or(FUZZ_JOB_DEADLINE_S)
+}
+
 pub fn fuzz_stage(p: &Prop, spec: &FuzzSpec, seed: u64) -> (Value, Vec<Failure>) {
     let fdir = verif_dir().join("harness").join("fuzz");
     let work = fdir.join("work").join(format!("{}-{}", p.id, spec.target));
@@ -1047,26 +1055,62 @@ pub fn fuzz_stage(p: &Prop, spec: &FuzzSpec, seed: u64) -> (Value, Vec<Failure>)
                         }
                     }
                     let s = (mix(seed, spec.target, j) % 0x7fff_ffff).max(1);
-                    let out = std::process::Command::new("cargo")
-                        .args(["+nightly", "fuzz", "run", "-s", "none", spec.target])
+                    use std::os::unix::process::CommandExt;
+                    let log_path = work.join(format!("job{}.log", j));
+                    let log_file = std::fs::File::create(&log_path);
+                    let mut cmd = std::process::Command::new("cargo");
+                    cmd.args(["+nightly", "fuzz", "run", "-s", "none", spec.target])
                         .arg(&corpus)
                         .arg("--")
                         .arg(format!("-runs={}", spec.runs))
                         .arg(format!("-max_len={}", spec.max_len))
                         .arg(format!("-seed={}", s))
                         .arg("-len_control=0")
-                        .arg("-timeout=25")
+                        .arg("-timeout=120")
                         .arg("-rss_limit_mb=4096")
                         .arg("-print_final_stats=1")
                         .arg(format!("-dict={}", fdir.join("jsonpath.dict").display()))
                         .arg(format!("-artifact_prefix={}/", arts.display()))
                         .current_dir(&fdir)
                         .env("CARGO_NET_OFFLINE", "true")
-                        .output();
-                    match out {
-                        Ok(o) => (j, String::from_utf8_lossy(&o.stderr).to_string()),
-                        Err(e) => (j, format!("spawn failed: {}", e)),
+                        .stdin(std::process::Stdio::null())
+                        .stdout(std::process::Stdio::null())
+                        // its own process group, so that cargo-fuzz and the target can be stopped together
+                        .process_group(0);
+                    match log_file {
+                        Ok(f) => {
+                            cmd.stderr(f);
+                        }
+                        Err(e) => return (j, format!("cannot create the job log: {}", e)),
                     }
+                    // a job that does not finish within the deadline is stopped and gives no verdict: libFuzzer's
+                    // own -timeout handler is not async-signal-safe (seen deadlocked in malloc), and a stage
+                    // that never ends would turn the whole check into a hang
+                    let deadline = std::time::Instant::now() + std::time::Duration::from_secs(fuzz_job_deadline_s());
+                    let mut child = match cmd.spawn() {
+                        Ok(c) => c,
+                        Err(e) => return (j, format!("spawn failed: {}", e)),
+                    };
+                    let mut killed = false;
+                    loop {
+                        match child.try_wait() {
+                            Ok(Some(_)) => break,
+                            Ok(None) => {}
+                            Err(_) => break,
+                        }
+                        if std::time::Instant::now() > deadline {
+                            let _ = std::process::Command::new("kill").arg("-9").arg("--").arg(format!("-{}", child.id())).status();
+                            let _ = child.wait();
+                            killed = true;
+                            break;
+                        }
+                        std::thread::sleep(std::time::Duration::from_millis(500));
+                    }
+                    let mut log = std::fs::read_to_string(&log_path).unwrap_or_else(|_| String::from_utf8_lossy(&std::fs::read(&log_path).unwrap_or_default()).to_string());
+                    if killed {
+                        log.push_str("\nJOB-STOPPED-AT-DEADLINE\n");
+                    }
+                    (j, log)
                 })
             })
             .collect();
@@ -1119,10 +1163,15 @@ pub fn fuzz_stage(p: &Prop, spec: &FuzzSpec, seed: u64) -> (Value, Vec<Failure>)
     for o in &other {
         eprintln!("note: fuzz stage saw a failure that belongs to another property: {}", o);
     }
+    let stopped = results.iter().filter(|(_, log)| log.contains("JOB-STOPPED-AT-DEADLINE")).count();
+    if stopped > 0 {
+        eprintln!("note: {} of {} libFuzzer jobs of `{}` were stopped at the {} s deadline (no verdict from them)", stopped, SHARDS, spec.target, fuzz_job_deadline_s());
+    }
     let _ = std::fs::remove_dir_all(&work);
     (
         json!({"engine": "libFuzzer (cargo-fuzz), coverage-guided, oracle inside the target", "target": spec.target, "jobs": SHARDS, "executions": execs, "new_corpus_units": units, "coverage_edges(max over jobs)": cov,
-               "crashes_for_this_property": fails.len(), "crashes_for_other_properties": other.len()}),
+               "crashes_for_this_property": fails.len(), "crashes_for_other_properties": other.len(),
+               "jobs_stopped_at_deadline(no verdict)": stopped, "job_deadline_s": fuzz_job_deadline_s()}),
         fails,
     )
 }
